@@ -1543,6 +1543,7 @@ func (v *VMValue) ComputedExecute(ctx *Context, detail *BufferSpan) *VMValue {
 	vm.RandSrc = ctx.RandSrc
 	vm.forceSolveDetail = true
 	vm.CustomFlag = ctx.CustomFlag
+	vm.CustomDiceInfo = ctx.CustomDiceInfo // 延迟编译的表达式(反序列化/宿主创建)也要能识别已注册的自定义算符
 	if ctx.Config.OpCountLimit > 0 && vm.NumOpCount > vm.Config.OpCountLimit {
 		vm.Error = errors.New("允许算力上限")
 		ctx.Error = vm.Error
@@ -1715,6 +1716,7 @@ func (v *VMValue) FuncInvokeRaw(ctx *Context, params []*VMValue, useUpCtxLocal b
 	ctx.NumOpCount = vm.NumOpCount                  // 防止无限递归
 	vm.RandSrc = ctx.RandSrc
 	vm.CustomFlag = ctx.CustomFlag
+	vm.CustomDiceInfo = ctx.CustomDiceInfo // 延迟编译的函数体(反序列化/RunExpr/默认面数表达式)也要能识别已注册的自定义算符
 	if ctx.Config.OpCountLimit > 0 && vm.NumOpCount > vm.Config.OpCountLimit {
 		vm.Error = errors.New("允许算力上限")
 		ctx.Error = vm.Error
